@@ -5,6 +5,7 @@ import io
 import re
 
 from .token import CToken
+from ..common import Token, SourceLocation
 from ..tools.handlexer import HandLexerBase
 
 
@@ -345,7 +346,12 @@ class CLexer(HandLexerBase):
                 if self.accept("."):
                     self.emit("...")
                 else:
-                    self.error("Expected . or ...")
+                    # Two dots are two tokens:
+                    loc = self._start_loc
+                    for col in (loc.col, loc.col + 1):
+                        loc = SourceLocation(loc.filename, loc.row, col, 1)
+                        self.token_buffer.append(Token(".", ".", loc))
+                    self.ignore()
             else:
                 self.emit(".")
             return self.lex_c
